@@ -15,6 +15,8 @@ pub struct CliCase {
     pub replace: bool,
     pub force: bool,
     pub threshold: Option<String>,
+    /// `--verbose`: a logger is installed; what is reported, written and returned must not change
+    pub verbose: bool,
 }
 
 fn cli_bin() -> String {
@@ -299,7 +301,9 @@ pub fn gen_case(rng: &mut Rng, corpus: &[(String, Vec<u8>)], idx: usize) -> CliC
         minimal = false;
         threshold = None;
     }
-    CliCase { files, args_files, alternatives, normalize, minimal, replace, force, threshold }
+    // every third invocation runs with a logger installed (never the directed > 1 MB ones: trace output of a large file is slow)
+    let verbose = idx % 3 == 1 && files.iter().all(|f| f.1.len() < 200_000);
+    CliCase { files, args_files, alternatives, normalize, minimal, replace, force, threshold, verbose }
 }
 
 pub fn run(prop: &'static str, thorough: bool, seed: u64) -> Report {
@@ -370,6 +374,10 @@ pub fn run(prop: &'static str, thorough: bool, seed: u64) -> Report {
         }
         if let Some(t) = &case.threshold {
             cmd.arg(format!("--threshold={}", t));
+        }
+        if case.verbose {
+            cmd.arg("--verbose");
+            rep.count("flags:verbose");
         }
         for f in &case.args_files {
             cmd.arg(dir.join(f));
